@@ -75,7 +75,7 @@ func handleRos(req isolate.Req) isolate.Resp {
 func judge(label string, o isolate.Outcome) error {
 	switch {
 	case o.Hang:
-		return pk.Failf("hang", "%s did not finish within the deadline, also when re-run alone with a 60 s deadline", label)
+		return pk.Failf("hang", "%s did not finish within the deadline, also when re-run alone in a fresh worker with a 600 s deadline", label)
 	case o.Died:
 		return pk.Failf("process-death", "%s killed the process: %s", label, o.ExitInfo)
 	case o.Status == 1:
@@ -483,7 +483,7 @@ func genC19Hostile(t *rapid.T) C19Hostile {
 
 func checkC19Hostile(h C19Hostile, st *stats.Collector) error {
 	in := append([]byte(h.Pkg), []byte(h.Def)...)
-	o := worker().Call(isolate.Req{Entry: entryRos1msg, Aux: uint64(len(h.Pkg)), Input: in}, 10*time.Second, 60*time.Second)
+	o := worker().Call(isolate.Req{Entry: entryRos1msg, Aux: uint64(len(h.Pkg)), Input: in}, 10*time.Second, 600*time.Second)
 	label := fmt.Sprintf("ParseMessageDefinition(%q, %d-byte %s definition)", h.Pkg, len(h.Def), h.Kind)
 	if err := judge(label, o); err != nil {
 		return err
